@@ -13,6 +13,8 @@ Statements / expressions are tuples mirroring the Coq constructors:
 import random
 
 LEVEL_NAMES = {1: "ERROR", 2: "WARN", 3: "INFO", 4: "DEBUG", 5: "TRACE"}
+# the attribute's keywords (attr.rs `mod kw`) that the generator / the model's `attrs` record cover
+KEYWORDS = ["name", "level", "target", "parent", "follows_from", "skip", "fields", "ret", "err"]
 SHAPES = ["unit", "num", "rec", "res_num_er", "res_rec_er", "res_num_rec", "impl_num", "impl_rec"]
 
 
@@ -246,7 +248,10 @@ class Gen:
                 s = ("drop", p)
                 live = live - {p}
             elif r < 0.72 and is_async:
-                s = ("await", rng.randint(0, 20))
+                # await sites are numbered: a site is reached at most once per run (no loops), so the site a cancelled future is
+                # suspended at identifies the cancellation point (Attr.Model.cancel_at)
+                self.n_await = getattr(self, "n_await", 0) + 1
+                s = ("await", self.n_await)
             elif r < 0.86 and depth < 2:
                 c = self.cond(binds)
                 a, la, da = self.stmts(shape, binds, set(live), is_async, depth + 1, rng.randint(1, 3))
@@ -298,15 +303,16 @@ class Gen:
     def attrs(self, kind, shape, binds):
         rng = self.rng
         f = self.force
-        a = {"name": None, "level": None, "level_form": "str", "target": None, "parent": None, "follows": None, "skips": [],
-             "fields": [], "ret": None, "err": None}
+        a = default_attrs()
         if rng.random() < 0.3:
             a["name"] = rng.randint(0, 5)
+            a["name_form"] = rng.choice(["kw", "kw", "bare", "const"])     # name = "..", a bare string literal, name = CONST
         if rng.random() < 0.6:
             a["level"] = rng.randint(1, 5)
             a["level_form"] = rng.choice(["str", "STR", "int", "path"])
         if rng.random() < 0.3:
             a["target"] = rng.randint(0, 3)
+            a["target_form"] = rng.choice(["lit", "lit", "const"])
         r = rng.random()
         if r < 0.15:
             a["parent"] = ("none",)
@@ -325,14 +331,24 @@ class Gen:
             r = rng.random()
             prims = [b["i"] for b in binds if b["ty"] == "u32"]
             recs = [b["i"] for b in binds if b["ty"] == "rec" and b["access"] != "none"]
-            # the name: a fresh one, or (sometimes) the name of a parameter: the custom field then replaces it
+            # the name: a fresh one, or (sometimes) the name of a parameter (the custom field then replaces it), or a dotted
+            # name whose first segment is a parameter's name (which replaces nothing)
             nm = ("custom", j)
-            if named and rng.random() < 0.2:
-                cand = rng.choice(named)
-                if ("param", cand["i"]) not in used_names and cand["name"] != "self":
+            plain_named = [b for b in named if b["name"] != "self"]
+            if plain_named and rng.random() < 0.2:
+                cand = rng.choice(plain_named)
+                if ("param", cand["i"]) not in used_names:
                     nm = ("param", cand["i"])
-            used_names.add(nm)
-            if r < 0.25:
+            elif plain_named and rng.random() < 0.12:
+                nm = ("dot", rng.choice(plain_named)["i"], j)
+            shorts = [b for b in plain_named if b["access"] != "none" and ("param", b["i"]) not in used_names]
+            if r >= 0.85 and shorts and rng.random() < 0.6:
+                # `?p` / `%p`: the parameter itself, no expression
+                b = rng.choice(shorts)
+                nm = ("param", b["i"])
+                fe = ("short", b["i"])
+                k = rng.choice(["debug", "display"])
+            elif r < 0.25:
                 fe = ("num", j, rng.randint(0, 99))
                 k = rng.choice(["value", "debug", "display"])
             elif r < 0.5 and prims:
@@ -341,12 +357,13 @@ class Gen:
             elif r < 0.85 and recs:
                 fe = ("rec", j, rng.choice(recs))
                 k = rng.choice(["debug", "display"])
-            elif nm[0] == "custom":
-                fe = ("empty",)
+            elif nm[0] != "dot":
+                fe = ("empty",)           # a bare name: Empty (under a parameter's name: the parameter has no recorded value at all)
                 k = "value"
             else:
                 fe = ("num", j, 7)
                 k = "value"
+            used_names.add(nm)
             a["fields"].append({"name": nm, "kind": k, "expr": fe})
         oe = shape_ok_err(shape)
         want_ret = f.get("ret", rng.random() < 0.45)
@@ -382,7 +399,48 @@ class Gen:
                 "attrs": attrs}
 
 
-def build_corpus(n, seed):
+def _tup(x):
+    return tuple(_tup(y) for y in x) if isinstance(x, list) else x
+
+
+def default_attrs():
+    return {"name": None, "name_form": "kw", "level": None, "level_form": "str", "target": None, "target_form": "lit", "parent": None,
+            "follows": None, "skips": [], "fields": [], "ret": None, "err": None}
+
+
+def from_spec(spec, idx):
+    """A hand-written skeleton (corpus/C17/*.json): {"kind","recv","groups":[group kinds],"ret":shape,"body":stmt,"tail":expr,"attrs":{..}}
+    with statements / expressions as nested JSON lists mirroring the tuples above."""
+    recv = spec.get("recv")
+    binds, groups = [], []
+    if recv:
+        binds.append(mk_recv(recv))
+    for gi, k in enumerate(spec["groups"]):
+        g, b = mk_group(k, len(binds), gi)
+        groups.append(g)
+        binds += b
+    a = default_attrs()
+    for k, v in spec.get("attrs", {}).items():
+        a[k] = v
+    if a["parent"] is not None:
+        a["parent"] = _tup(a["parent"])
+    a["fields"] = [{"name": _tup(cf["name"]), "kind": cf["kind"], "expr": _tup(cf["expr"])} for cf in a["fields"]]
+    for k in ("ret", "err"):
+        if a[k] is not None:
+            a[k] = {"level": a[k].get("level"), "mode": a[k].get("mode", "default")}
+    return {"idx": idx, "kind": spec["kind"], "recv": recv, "groups": groups, "binds": binds, "ret": spec["ret"],
+            "body": _tup(spec["body"]), "tail": _tup(spec["tail"]), "attrs": a, "why": spec.get("why", "")}
+
+
+def build_corpus(n, seed, specs=()):
+    """n generated skeletons (indices 0..n-1), then the hand-written regression skeletons (indices n..)."""
+    fns = build_generated(n, seed)
+    for k, spec in enumerate(specs):
+        fns.append(from_spec(spec, n + k))
+    return fns
+
+
+def build_generated(n, seed):
     rng = random.Random(seed)
     fns = []
     # systematic: every (kind x ret x err) template several times, then random
@@ -522,13 +580,23 @@ def ev_text(kw, ev):
     return kw + ("(%s)" % ", ".join(parts) if parts else "")
 
 
+def field_name(fn, nm):
+    if nm[0] == "custom":
+        return "f%d" % nm[1]
+    if nm[0] == "dot":
+        return "%s.d%d" % (bname(fn, nm[1]), nm[2])
+    return bname(fn, nm[1])
+
+
 def field_text(fn, cf):
     nm = cf["name"]
-    name = ("f%d" % nm[1]) if nm[0] == "custom" else bname(fn, nm[1])
+    name = field_name(fn, nm)
     fe = cf["expr"]
     if fe[0] == "empty":
         return name
     sig = {"value": "", "debug": "?", "display": "%"}[cf["kind"]]
+    if fe[0] == "short":
+        return sig + name
     if fe[0] == "num":
         ex = "fx(%d, %d)" % (fe[1], fe[2])
     elif fe[0] == "prim":
@@ -542,7 +610,7 @@ def attr_text(fn, order_rng):
     a = fn["attrs"]
     pre, post = [], []
     if a["name"] is not None:
-        pre.append('name = "name%d"' % a["name"])
+        pre.append({"kw": 'name = "name%d"', "bare": '"name%d"', "const": "name = NAME%d"}[a.get("name_form", "kw")] % a["name"])
     if a["level"] is not None:
         pre.append("level = %s" % level_text(a))
     if a["parent"] is not None:
@@ -558,9 +626,12 @@ def attr_text(fn, order_rng):
     if a["err"]:
         pre.append(ev_text("err", a["err"]))
     order_rng.shuffle(pre)
-    # `target` after `parent` / `follows_from` (the duplicate-argument guards of attr.rs:101-112 test `args.target`, note F172)
-    if a["target"] is not None:
-        tt = 'target = "tgt%d"' % a["target"]
+    # `target` after `parent` / `follows_from` (the duplicate-argument guards of attr.rs:101-112 test `args.target`: known finding F172, probed separately by corpus_o)
+    if a["target"] is not None and a.get("order") == "target_first":
+        # the argument-order probe (known finding F172): `target` *before* `parent` / `follows_from`
+        pre.insert(0, 'target = "tgt%d"' % a["target"])
+    elif a["target"] is not None:
+        tt = ('target = TGT%d' if a.get("target_form") == "const" else 'target = "tgt%d"') % a["target"]
         last_pf = max([i for i, x in enumerate(pre) if x.startswith("parent") or x.startswith("follows_from")] + [-1])
         pos = order_rng.randint(last_pf + 1, len(pre))
         pre.insert(pos, tt)
@@ -720,25 +791,33 @@ def c_ev(ev):
     return "(Some (mkEv %s %s))" % (c_opt(ev["level"]), {"default": "MDefault", "debug": "MDebug", "display": "MDisplay"}[ev["mode"]])
 
 
-def c_field(cf):
-    nm = "(FnCustom %d)" % cf["name"][1] if cf["name"][0] == "custom" else "(FnParam %d)" % cf["name"][1]
+def c_field(cf, binds):
+    n = cf["name"]
+    nm = "(FnCustom %d)" % n[1] if n[0] == "custom" else ("(FnDot %d %d)" % (n[1], n[2]) if n[0] == "dot" else "(FnParam %d)" % n[1])
     k = {"value": "FKValue", "debug": "FKDebug", "display": "FKDisplay"}[cf["kind"]]
     fe = cf["expr"]
-    ex = "FxEmpty" if fe[0] == "empty" else "(%s %d %d)" % ({"num": "FxNum", "prim": "FxPrim", "rec": "FxRec"}[fe[0]], fe[1], fe[2])
+    if fe[0] == "empty":
+        ex = "FxEmpty"
+    elif fe[0] == "short":
+        ex = "(FxShort %d %s)" % (fe[1], {"rec": "TRec", "u32": "TU32", "bool": "TBool", "str": "TStr"}[binds[fe[1]]["ty"]])
+    else:
+        ex = "(%s %d %d)" % ({"num": "FxNum", "prim": "FxPrim", "rec": "FxRec"}[fe[0]], fe[1], fe[2])
     return "(mkCF %s %s %s)" % (nm, k, ex)
 
 
-def c_attrs(a):
+def c_attrs(a, binds):
     par = "None" if a["parent"] is None else ("(Some PxNone)" if a["parent"][0] == "none" else "(Some (PxHelper %d))" % a["parent"][1])
     fol = "None" if a["follows"] is None else "(Some [%s])" % "; ".join(str(k) for k in a["follows"])
     return "(mkAttrs %s %s %s %s %s [%s] [%s] %s %s)" % (
         c_opt(a["name"]), c_opt(a["level"]), c_opt(a["target"]), par, fol, "; ".join(str(p) for p in a["skips"]),
-        "; ".join(c_field(cf) for cf in a["fields"]), c_ev(a["ret"]), c_ev(a["err"]))
+        "; ".join(c_field(cf, binds) for cf in a["fields"]), c_ev(a["ret"]), c_ev(a["err"]))
 
 
-def c_args(vals):
-    """an `N -> N` environment"""
+def c_args(vals, cancel_site=None):
+    """an `N -> N` environment; cancel_site K: the caller drops the future while it is suspended at await site K"""
     arms = " ".join("| %d => %d" % (i, v) for i, v in enumerate(vals) if v)
+    if cancel_site is not None:
+        arms += " | %d => 1" % (1000 + cancel_site)
     return "(fun p : N => match p with %s | _ => 0 end)" % arms
 
 
@@ -761,11 +840,11 @@ def attr_key(fn):
     ks = []
     for k in ("name", "level", "target", "parent", "follows"):
         if a[k] is not None:
-            ks.append(k)
+            ks.append(k + {"name": ":" + a.get("name_form", "kw"), "target": ":" + a.get("target_form", "lit"), "level": ":" + a.get("level_form", "str")}.get(k, ""))
     if a["skips"]:
         ks.append("skip")
     for cf in a["fields"]:
-        ks.append("field:%s:%s%s" % (cf["kind"], cf["expr"][0], ":override" if cf["name"][0] == "param" else ""))
+        ks.append("field:%s:%s%s" % (cf["kind"], cf["expr"][0], {"param": ":override", "dot": ":dotted"}.get(cf["name"][0], "")))
     for k in ("ret", "err"):
         if a[k]:
             ks.append("%s:%s:%s" % (k, a[k]["mode"], "lvl" if a[k]["level"] else "-"))
